@@ -379,10 +379,11 @@ def _worker(args):
                     res["corr"].append({"what": "list-spec-error", "case": ccase, "model": sp["__err__"], "impl": None})
                 elif sp["specFail"]:
                     kinds = sorted({(_kind(tops_of(scn)[t]) + (":randsz" if _uses_randsz(scn, tops_of(scn)[t]) else "")) for t in sp["specFail"]})
-                    res["orc"].append({"signature": "list-constraint-violated-on-exposed-list:" + ",".join(kinds), "case": ccase,
-                                       "observed": {"exposed": [e["iter"] for e in rec["exposed"]], "scalars": rec["after_s"],
-                                                    "failing_statements": sp["specFail"]},
-                                       "required": "every list constraint holds over exactly the elements the list exposes"})
+                    for kind in kinds:          # one report per kind of failing statement (each has its own known-finding entry)
+                        res["orc"].append({"signature": "list-constraint-violated-on-exposed-list:" + kind, "case": ccase,
+                                           "observed": {"exposed": [e["iter"] for e in rec["exposed"]], "scalars": rec["after_s"],
+                                                        "failing_statements": sp["specFail"]},
+                                           "required": "every list constraint holds over exactly the elements the list exposes"})
                 # fixed-size lists keep their length
                 for li, l in enumerate(scn["lists"]):
                     if not l["randsz"] and rec["exposed"][li]["len"] != rec["before_l"][li]["size"]:
